@@ -27,10 +27,12 @@ fn main() {
         Some("token") => m_token::run(),
         Some("cping") => m_cping::run(),
         Some("cpingstress") => m_cping::run_stress(),
+        Some("cpingpanic") => m_cping::run_panic(),
         Some("async") => m_async::run(),
         Some("asyncw") => m_asyncw::run(),
         Some("asyncdup") => m_async::run_dup(),
         Some("adaptkey") => m_async::run_adaptkey(),
+        Some("asyncclose") => m_async::run_close(),
         Some("genlife") => m_genlife::run(),
         Some("cexec") => m_cexec::run(),
         Some("execmix") => m_cexec::run_mix(),
